@@ -271,7 +271,28 @@ def rule_l2(F):
         known[fn] = roles
         r.inst("roles of " + fn, {"fn": fn, "roles_by_position": {str(k): sorted(v) for k, v in roles.items()}})
     chain = [("call_clone_function", "clones"), ("call_clone_of", "clones"), ("generate_clone_body_record", "clones"), ("generate_clone_body_enum", "clones")]
-    for fn, where in chain:
+    # every method of the clone lowering takes part (helpers extracted from the bodies carry the roles onward): roles to a fixpoint
+    module = [bb for bb in F.all_bodies() if bb.mir and "lir::lower::clones" in bb.path and "{closure" not in bb.path]
+    for _round in range(4):
+        for bb in module:
+            nm = hir.last(bb.path)
+            if nm in ("generate_clone_body",):
+                continue
+            roles_, _ = _roles(F, bb, known)
+            if roles_:
+                known[nm] = roles_
+    reaches_clone = {"call_clone_of"}
+    grow = True
+    while grow:
+        grow = False
+        for bb in module:
+            nm = hir.last(bb.path)
+            if nm not in reaches_clone and any(hir.last(mir.callee(t) or "") in reaches_clone for _, t in mir.calls(bb)):
+                reaches_clone.add(nm)
+                grow = True
+    extra = [(hir.last(bb.path), "clones") for bb in module if hir.last(bb.path) not in [c[0] for c in chain] and hir.last(bb.path) != "generate_clone_body" and known.get(hir.last(bb.path))
+             and any(len(v) > 1 for v in known[hir.last(bb.path)].values())]
+    for fn, where in chain + extra:
         b = body_of(fn, where)
         if b is None:
             continue
@@ -289,7 +310,7 @@ def rule_l2(F):
         if not mixed and (len(dests) != 1 or len(srcs) != 1):
             r.bad(b.path, "direction", relfile(b.file), b.line, "%s must have exactly one destination and one source parameter (found dest=%s src=%s)" % (fn, dests, srcs))
         if fn.startswith("generate_clone_body_"):
-            n = sum(1 for c in hir.nodes(b.hir["value"], "mcall") if c["m"] == "call_clone_of")
+            n = sum(1 for _, t_ in mir.calls(b) if hir.last(mir.callee(t_) or "") in reaches_clone)
             if n == 0:
                 r.bad(b.path, "call_clone_of", relfile(b.file), b.line, "%s no longer clones its fields" % fn)
     # the anchor: generate_clone_body hands the VarKind::Return variable to the destination position and the parameter to the source
